@@ -21,6 +21,7 @@ type c03Part struct {
 	Frac float64  `json:"frac"`
 	Keys []string `json:"keys,omitempty"` // predicate strategy: the keys this partition's predicate accepts
 	Init int      `json:"init,omitempty"` // lookup: the limit argument the partition object is constructed with (the strategy must overwrite it with the share)
+	Obj  string   `json:"obj,omitempty"`  // lookup, dynamic add: the partition object's own name when it differs from the routing key it is added under
 }
 
 type c03Op struct {
@@ -93,6 +94,9 @@ func genC03(t *rapid.T) c03Case {
 			return c03Op{K: "set", N: rapid.OneOf(rapid.IntRange(-3, 80), rapid.IntRange(1, 6)).Draw(t, "n")}
 		case k < 18:
 			p := genPart(rapid.SampledFrom(addNames)).Draw(t, "part")
+			if rapid.IntRange(0, 2).Draw(t, "otherObjName") == 0 {
+				p.Obj = "obj-" + p.Name // routed by the key given to AddPartition, not by the object's name
+			}
 			return c03Op{K: "add", Part: &p}
 		default:
 			return c03Op{K: "rm", Key: rapid.SampledFrom(names).Draw(t, "rmkey")}
@@ -145,7 +149,11 @@ func runC03(_ *testing.T, c c03Case) (out kit.Outcome) {
 	mkBin := func(p c03Part) *c03Bin {
 		b := &c03Bin{part: p}
 		if c.Kind == "lookup" {
-			b.lookup = strategy.NewLookupPartitionWithMetricRegistry(p.Name, p.Frac, int32(p.Init), reg)
+			objName := p.Name
+			if p.Obj != "" {
+				objName = p.Obj
+			}
+			b.lookup = strategy.NewLookupPartitionWithMetricRegistry(objName, p.Frac, int32(p.Init), reg)
 		} else {
 			keys := p.Keys
 			pred := func(ctx context.Context) bool {
